@@ -6,6 +6,7 @@ import (
 	"bufio"
 	"fmt"
 	"io"
+	"os"
 	"os/exec"
 	"strings"
 	"sync/atomic"
@@ -196,7 +197,14 @@ func (s *Solver) CheckModel(asserts []*Term, want []*Term) (string, map[string]s
 	b.WriteString("(check-sat)\n")
 	s.Queries++
 	atomic.AddInt64(&totalQueries, 1)
+	tq := time.Now()
 	lines := s.roundtrip(b.String())
+	if verbose && time.Since(tq) > 2*time.Second {
+		fmt.Fprintf(os.Stderr, "[slow query %.1fs] %v (%d asserts, %d bytes)\n", time.Since(tq).Seconds(), lines, len(asserts), b.Len())
+		if os.Getenv("GOSYM_DUMPSLOW") != "" {
+			os.WriteFile(fmt.Sprintf("/tmp/slow_%d.smt2", s.Queries), []byte(strings.Join(s.decls, "")+b.String()), 0o644)
+		}
+	}
 	verdict := "unknown"
 	for _, l := range lines {
 		if strings.HasPrefix(l, "(error") || strings.Contains(l, "(error ") {
